@@ -4,6 +4,7 @@ CONSTANTS
   Modes = {"design", "impl"}
   MaxHops = 3
   Statuses = {400, 404, 416, 429, 500}
+  SweepStatuses <- SweepAll
   Kinds = {"GET", "HEAD"}
   Export = FALSE
 INVARIANTS StatusPerTable IsPreserved CellsExact CodePreserved DetailPreserved HeadLaw MessageFixedPoint FirstHopMessage
